@@ -12,11 +12,11 @@ META = {
     "level": "proof",
     "technique": "Coq proof over R (exactness of a shift rule on all trigonometric polynomials <=> trigonometric moment conditions) + per-instance validation of the moment conditions on the real generate_shift_rule output in 40-digit arithmetic + vm_compute correspondence for the branch test and process_shifts",
     "design_ref": "DESIGN.md §3 C35, §5 item 8",
-    "text": "Props/C35.v proves, for ALL rules (lists of (coefficient, shift)), frequencies and points: the rule reproduces f' for f=cos(w.) and f=sin(w.) at every x IFF sum c cos(w s)=0 and sum c sin(w s)=w; if in addition sum c = 0 (automatic for PennyLane's antisymmetric +/- pairs, proved) the rule's value IS the derivative (derivable_pt_lim) of every finite trigonometric polynomial a0+sum a_j cos(w_j x)+b_j sin(w_j x) whose frequencies satisfy the moments; same for the second derivative with moments (-w^2, 0); the iterated rule (_iterate_shift_rule, order 2) of two first-order-exact rules satisfies the second-order moments; shifting a shift by a period leaves the moments unchanged; the two-term rule (+-w/2 at +-pi/(2w)) satisfies the moments. The branch test of _get_shift_rule is transcribed over Q and REFUTED as a criterion for the closed form (branch_test_refuted: (1,3) passes the equidistant test but is not {w,..,Rw}); the repaired test (exact version) is proved to imply {w,..,Rw}. process_shifts is transcribed over Q; merging and sorting preserve sum c g(s) for every g (all rules). Validation run against /repo on every check: the real generate_shift_rule / generate_multi_shift_rule are run on generated frequency sets (multiples, offset-equally-spaced, integer non-equidistant, non-commensurate, dense), default/explicit shifts, orders 1-2 (3-4 in thorough) and the moment conditions of the returned float rule are evaluated in 40-digit arithmetic on the exact values of the floats (by the theorem that IS exactness, up to the stated residual 1e-8*scale); the rule is also applied to random trigonometric polynomials at random points (direct oracle); branch decision (observed by counting linear-solver calls) and process_shifts are compared with the Gallina model inside Coq.",
+    "text": "Props/C35.v proves, for ALL rules (lists of (coefficient, shift)), frequencies and points: the rule reproduces f' for f=cos(w.) and f=sin(w.) at every x IFF sum c cos(w s)=0 and sum c sin(w s)=w; if in addition sum c = 0 (automatic for PennyLane's antisymmetric +/- pairs, proved) the rule's value IS the derivative (derivable_pt_lim) of every finite trigonometric polynomial a0+sum a_j cos(w_j x)+b_j sin(w_j x) whose frequencies satisfy the moments; same for the second derivative with moments (-w^2, 0); the iterated rule (_iterate_shift_rule, order 2) of two first-order-exact rules satisfies the second-order moments; shifting a shift by a period leaves the moments unchanged; the two-term rule (+-w/2 at +-pi/(2w)) satisfies the moments. The branch test of _get_shift_rule is transcribed over Q and REFUTED as a criterion for the closed form (branch_test_refuted: (1,3) passes the equidistant test but is not {w,..,Rw}); the repaired test (exact version) is proved to imply {w,..,Rw}. process_shifts is transcribed over Q; merging and sorting preserve sum c g(s) for every g (all rules). Validation run against /repo on every check: the real generate_shift_rule / generate_multi_shift_rule are run on generated frequency sets (multiples, offset-equally-spaced, integer non-equidistant, non-commensurate, dense), default/explicit shifts, orders 1-2 (3-4 in thorough) and the moment conditions of the returned float rule are evaluated on the exact values of the floats (IEEE double with exactly rounded sums as a filter: pass only if residual <= 1e-10*scale; everything else is decided in 40-digit mpmath arithmetic against 1e-8*scale; by the theorem that IS exactness up to the stated residual); the rule is also applied to random trigonometric polynomials at random points (direct oracle); branch decision (observed by counting linear-solver calls) and process_shifts are compared with the Gallina model inside Coq.",
     "note": "NOT proved in Coq: that the equidistant closed-form coefficients satisfy the moments for arbitrary R (only R=1 is a theorem); that linalg_solve returns a solution. Both are validated per generated instance only (residual <= 1e-8*scale, scale = max(1,sum|c|)*max(1,w)+w^order). The period wrap of _iterate_shift_rule is proved sound only for a true period (w*T in 2*pi*Z); frequencies_to_period rounds non-integer frequencies to 5 decimals, which is not modelled (generated frequencies either have <= 4 decimals or are so incommensurate that no wrap occurs). Cases in which the implementation itself warns about a (near-)singular system or raises LinAlgError are excluded from the exactness check and counted (e.g. default shifts with frequencies (1,2,4)); np.allclose on the default-shift test is modelled with a 50-digit rational pi and generated explicit shifts are either exactly the defaults or far from them (a shift within rtol=1e-5 of the default gets the closed-form coefficients and is then inexact at the 1e-5 level: by design, not probed). Real-number theorems use the stdlib real axioms. The Gallina transcriptions (branch test, process_shifts) are tied to /repo only by the correspondence run; process_shifts is tied on dyadic data where float arithmetic is exact.",
     "assumptions": ["frequencies are finite floats/ints; jax/torch/autograd array inputs are outside the model",
                     "explicit shifts are not within the np.allclose tolerance band of the default shifts unless equal to them",
-                    "exactness is checked up to residual 1e-8*scale in 40-digit arithmetic on the exact float values"],
+                    "exactness is checked up to residual 1e-8*scale (double-precision filter at 1e-10*scale, 40-digit decision otherwise) on the exact float values"],
     "trusted": ["hand-written model coq/Num/ShiftRulesModel.v tied to /repo by correspondence only",
                 "mpmath 40-digit evaluation of sin/cos for the per-instance moment check",
                 "Coq stdlib axiomatisation of the reals (Print Assumptions lists them)"],
@@ -56,27 +56,46 @@ def offset_equidistant(freqs, shifts):
     return len(ss) == len(ds) and all(abs(a - b) <= 1e-8 + 1e-5 * abs(b) for a, b in zip(ss, ds))
 
 
-def ipow(w, n):
+class MP:
+    """40-digit backend (decides every case the double backend does not clearly pass)"""
+    num = staticmethod(lambda x: mpmath.mpf(x))
+    cos, sin, pi = staticmethod(mpmath.cos), staticmethod(mpmath.sin), mpmath.pi
+    fsum = staticmethod(lambda xs: mpmath.fsum(xs))
+
+
+class FP:
+    """IEEE double backend (math.fsum: exactly rounded sums); evaluation error <= ~1e-13*scale, used as a
+    fast filter only: a case passes on it only with residual <= FAST_PASS, anything else goes to MP"""
+    num = staticmethod(float)
+    cos, sin, pi = staticmethod(math.cos), staticmethod(math.sin), math.pi
+    fsum = staticmethod(math.fsum)
+
+
+FAST_PASS = 1e-10
+
+
+def ipow(B, w, n):
     """(i w)^n as (re, im) with 0^0 = 1"""
     if n == 0:
-        return MPF(1), MPF(0)
-    p = MPF(w) ** n
-    return [(p, 0), (0, p), (-p, 0), (0, -p)][n % 4]
+        return B.num(1), B.num(0)
+    p = B.num(w) ** n
+    z = B.num(0)
+    return [(p, z), (z, p), (-p, z), (z, -p)][n % 4]
 
 
-def moment_residuals_single(rule, freqs, order):
-    """max over w in {0} U freqs of |sum c e^{i w s} - (i w)^order| / scale(w); exact float values, 40 digits"""
-    cs = [(MPF(c), MPF(s)) for c, s in rule]
-    sabs = sum(abs(c) for c, _ in cs)
-    worst, arg = MPF(0), None
+def moment_residuals_single(B, rule, freqs, order):
+    """max over w in {0} U freqs of |sum c e^{i w s} - (i w)^order| / scale(w), on the exact float values"""
+    cs = [(B.num(c), B.num(s)) for c, s in rule]
+    sabs = B.fsum([abs(c) for c, _ in cs])
+    worst, arg = B.num(0), None
     for w in [0] + sorted(set(f for f in freqs if f > 0)):
-        wm = MPF(w)
-        re = sum(c * mpmath.cos(wm * s) for c, s in cs)
-        im = sum(c * mpmath.sin(wm * s) for c, s in cs)
-        tr, ti = ipow(wm, order) if (w != 0 or order == 0) else (MPF(0), MPF(0))
+        wm = B.num(w)
+        re = B.fsum([c * B.cos(wm * s) for c, s in cs])
+        im = B.fsum([c * B.sin(wm * s) for c, s in cs])
+        tr, ti = ipow(B, wm, order) if (w != 0 or order == 0) else (B.num(0), B.num(0))
         scale = max(1, sabs) * max(1, wm) + wm ** order
         r = max(abs(re - tr), abs(im - ti)) / scale
-        if r > worst:
+        if arg is None or r > worst:
             worst, arg = r, {"w": w, "sum_c_cos": float(re), "sum_c_sin": float(im),
                              "expected_cos": float(tr), "expected_sin": float(ti)}
     return worst, arg
@@ -86,29 +105,30 @@ def cmul(a, b):
     return a[0] * b[0] - a[1] * b[1], a[0] * b[1] + a[1] * b[0]
 
 
-def moment_residuals_multi(rule, freqs, orders):
-    rows = [[MPF(v) for v in row] for row in rule]
-    sabs = sum(abs(r[0]) for r in rows)
-    worst, arg = MPF(0), None
+def moment_residuals_multi(B, rule, freqs, orders):
+    rows = [[B.num(v) for v in row] for row in rule]
+    sabs = B.fsum([abs(r[0]) for r in rows])
+    worst, arg = B.num(0), None
     f1 = [0] + sorted(set(f for f in freqs[0] if f > 0))
     f2 = [0] + sorted(set(f for f in freqs[1] if f > 0))
+    zero = (B.num(0), B.num(0))
     for w1 in f1:
         for w2 in f2:
             for sg in ((1, -1) if (w1 and w2) else (1,)):
-                a, b = MPF(w1), MPF(sg * w2)
-                re = sum(r[0] * mpmath.cos(a * r[1] + b * r[2]) for r in rows)
-                im = sum(r[0] * mpmath.sin(a * r[1] + b * r[2]) for r in rows)
-                t1 = ipow(abs(a), orders[0]) if w1 else (MPF(0), MPF(0))
+                a, b = B.num(w1), B.num(sg * w2)
+                re = B.fsum([r[0] * B.cos(a * r[1] + b * r[2]) for r in rows])
+                im = B.fsum([r[0] * B.sin(a * r[1] + b * r[2]) for r in rows])
+                t1 = ipow(B, abs(a), orders[0]) if w1 else zero
                 if w2:
-                    t2 = ipow(abs(b), orders[1])
+                    t2 = ipow(B, abs(b), orders[1])
                     if sg < 0 and orders[1] % 2 == 1:
                         t2 = (-t2[0], -t2[1])
                 else:
-                    t2 = (MPF(0), MPF(0))
+                    t2 = zero
                 tr, ti = cmul(t1, t2)
                 scale = max(1, sabs) * max(1, a) * max(1, abs(b)) + a ** orders[0] * abs(b) ** orders[1]
                 r_ = max(abs(re - tr), abs(im - ti)) / scale
-                if r_ > worst:
+                if arg is None or r_ > worst:
                     worst, arg = r_, {"w1": w1, "w2": sg * w2, "sum_re": float(re), "sum_im": float(im),
                                       "expected_re": float(tr), "expected_im": float(ti)}
     return worst, arg
@@ -119,40 +139,48 @@ def trig_poly(rng, freqs):
     return {"a0": rng.uniform(-1, 1), "terms": [[w, rng.uniform(-1, 1), rng.uniform(-1, 1)] for w in fs]}
 
 
-def tp_eval(p, x, order):
-    """order-th derivative of the polynomial at x (mpf)"""
-    v = MPF(p["a0"]) if order == 0 else MPF(0)
+def tp_eval(B, p, x, order):
+    """order-th derivative of the polynomial at x"""
+    v = [B.num(p["a0"]) if order == 0 else B.num(0)]
     for w, a, b in p["terms"]:
-        w, a, b = MPF(w), MPF(a), MPF(b)
+        w, a, b = B.num(w), B.num(a), B.num(b)
         # d^n/dx^n [a cos + b sin](wx) = w^n [a cos(wx + n pi/2) + b sin(wx + n pi/2)]
-        ph = w * x + order * mpmath.pi / 2
-        v += w ** order * (a * mpmath.cos(ph) + b * mpmath.sin(ph))
-    return v
+        ph = w * x + order * B.pi / 2
+        v.append(w ** order * (a * B.cos(ph) + b * B.sin(ph)))
+    return B.fsum(v)
 
 
 def tp_amp(p):
     return abs(p["a0"]) + sum(abs(a) + abs(b) for _, a, b in p["terms"])
 
 
-def oracle_single(rule, p, x, order):
-    x = MPF(x)
-    got = sum(MPF(c) * tp_eval(p, x + MPF(s), 0) for c, s in rule)
-    want = tp_eval(p, x, order)
+def oracle_single(B, rule, p, x, order):
+    x = B.num(x)
+    got = B.fsum([B.num(c) * tp_eval(B, p, x + B.num(s), 0) for c, s in rule])
+    want = tp_eval(B, p, x, order)
     wmax = max([w for w, _, _ in p["terms"]] + [1])
-    sabs = sum(abs(c) for c, _ in rule)
-    scale = (max(1, sabs) * wmax + MPF(wmax) ** order) * max(tp_amp(p), 1e-3)
+    sabs = B.fsum([abs(B.num(c)) for c, _ in rule])
+    scale = (max(1, sabs) * wmax + B.num(wmax) ** order) * max(tp_amp(p), 1e-3)
     return abs(got - want) / scale, float(got), float(want)
 
 
-def oracle_multi(rule, p, q, x, y, orders):
-    x, y = MPF(x), MPF(y)
-    got = sum(MPF(r[0]) * tp_eval(p, x + MPF(r[1]), 0) * tp_eval(q, y + MPF(r[2]), 0) for r in rule)
-    want = tp_eval(p, x, orders[0]) * tp_eval(q, y, orders[1])
+def oracle_multi(B, rule, p, q, x, y, orders):
+    x, y = B.num(x), B.num(y)
+    got = B.fsum([B.num(r[0]) * tp_eval(B, p, x + B.num(r[1]), 0) * tp_eval(B, q, y + B.num(r[2]), 0) for r in rule])
+    want = tp_eval(B, p, x, orders[0]) * tp_eval(B, q, y, orders[1])
     w1 = max([w for w, _, _ in p["terms"]] + [1])
     w2 = max([w for w, _, _ in q["terms"]] + [1])
-    sabs = sum(abs(r[0]) for r in rule)
-    scale = (max(1, sabs) * w1 * w2 + MPF(w1) ** orders[0] * MPF(w2) ** orders[1]) * max(tp_amp(p) * tp_amp(q), 1e-3)
+    sabs = B.fsum([abs(B.num(r[0])) for r in rule])
+    scale = (max(1, sabs) * w1 * w2 + B.num(w1) ** orders[0] * B.num(w2) ** orders[1]) * max(tp_amp(p) * tp_amp(q), 1e-3)
     return abs(got - want) / scale, float(got), float(want)
+
+
+def two_stage(fn, *args):
+    """double backend as a filter, 40-digit backend for the decision of everything not clearly passing"""
+    r = fn(FP, *args)
+    if r[0] <= FAST_PASS:
+        return r
+    return fn(MP, *args)
 
 
 # ------------------------------------------------------------------ generators
@@ -354,7 +382,7 @@ def run(ctx):
             terms.append(g_branch_case(c, o))
         else:
             terms.append(g_process_case(c, o) if o["status"] == "ok" else f"CBranch [] None BSolve")
-    bad = ctx.coq_eval_cases("cases", "From Coq Require Import QArith.\nFrom PLV Require Import Num.ShiftRulesModel.", terms, "check_case")
+    bad = ctx.coq_eval_cases("cases", "From Coq Require Import QArith.\nFrom PLV Require Import Num.ShiftRulesModel.", terms, "check_case", chunk=120)
     for k in bad:
         i = tie_idx[k]
         c, o = cases[i], obs[i]
@@ -369,7 +397,7 @@ def run(ctx):
             "merged_rows_process": 0, "ill_conditioned_sum_abs_c_gt_1e6": 0}
     by_cls, by_order, by_skind = {}, {}, {}
     distinct = set()
-    worst_res = MPF(0)
+    worst_res = 0.0
     checked = 0
     finding_examples = []
     for c, o in zip(cases, obs):
@@ -404,18 +432,18 @@ def run(ctx):
             hist["ill_conditioned_sum_abs_c_gt_1e6"] += 1
         crng = random.Random(json.dumps(c, sort_keys=True))      # polynomial/point tied to the case, not to the stream
         if c["kind"] == "single":
-            res, arg = moment_residuals_single(rule, c["freqs"], c["order"])
+            res, arg = two_stage(moment_residuals_single, rule, c["freqs"], c["order"])
             p = trig_poly(crng, c["freqs"])
             x = crng.uniform(-3.2, 3.2)
-            ores, got, want = oracle_single(rule, p, x, c["order"])
+            ores, got, want = two_stage(oracle_single, rule, p, x, c["order"])
             cause = offset_equidistant(c["freqs"], c["shifts"]) and o["solve_calls"] == 0
             witness = {"trig_poly": p, "x": x, "rule_value": got, "derivative": want}
         else:
             orders = c["orders"] or [1, 1]
-            res, arg = moment_residuals_multi(rule, c["freqs"], orders)
+            res, arg = two_stage(moment_residuals_multi, rule, c["freqs"], orders)
             p, q = trig_poly(crng, c["freqs"][0]), trig_poly(crng, c["freqs"][1])
             x, y = crng.uniform(-3.2, 3.2), crng.uniform(-3.2, 3.2)
-            ores, got, want = oracle_multi(rule, p, q, x, y, orders)
+            ores, got, want = two_stage(oracle_multi, rule, p, q, x, y, orders)
             shs = c["shifts"] or [None, None]
             cause = any(offset_equidistant(f, s) for f, s in zip(c["freqs"], shs))
             witness = {"trig_poly_x": p, "trig_poly_y": q, "x": x, "y": y, "rule_value": got, "derivative": want}
@@ -423,7 +451,7 @@ def run(ctx):
         distinct.add(json.dumps([c["freqs"], c["shifts"], c.get("order", c.get("orders"))]))
         fail = res > TOLREL or ores > TOLREL
         if not fail:
-            worst_res = max(worst_res, res, ores)
+            worst_res = max(worst_res, float(res), float(ores))
             continue
         replay = {"case": c, "rule": rule, "moment_violated": arg, "moment_residual_over_scale": float(res),
                   "oracle": witness, "oracle_residual_over_scale": float(ores)}
